@@ -131,6 +131,17 @@ def run_c03(tier, seed):
     for name in G.DIRECT + G.DERIVED + ["PING", "ECHO", "SELECT", "CONFIG", "AUTH", "NOSUCH"]:
         for a in sysargs:
             cases.append(dict(reqs=[(name, a)], line=None, chunk="whole", quit_at=None))
+    # requests with very many elements (beyond any pre-allocation cap of the parser), followed by ordinary ones
+    for nel in (1023, 1024, 1025, 1026, 1100, 2049, 2500):
+        for name in ("DEL", "MGET", "SADD", "RPUSH", "MSET", "ZADD", "NOSUCH"):
+            nargs = nel - 1
+            if name == "MSET":
+                args = [b"k%d" % (i // 2) if i % 2 == 0 else b"v" for i in range(nargs - nargs % 2)]
+            elif name == "ZADD":
+                args = [b"z"] + [b"%d" % (i // 2) if i % 2 == 0 else b"m%d" % i for i in range((nargs - 1) - (nargs - 1) % 2)]
+            else:
+                args = [b"e%d" % i for i in range(nargs)]
+            cases.append(dict(reqs=[(name, args), ("PING", []), ("ECHO", [b"end"])], line=None, chunk=rng.choice(["whole", "pipeline", "kway"]), quit_at=None))
     for _ in range(n):
         k = rng.randint(1, 8)
         reqs = [any_request(rng) for _ in range(k)]
@@ -309,6 +320,24 @@ def run_c04(tier, seed):
         for req in [(b"NOSUCH" + inj, []), (b"GET", [b"k" + inj]), (b"SET", [b"k", b"v", b"EX" + inj]), (b"ECHO", [inj]), (b"PING", [inj]), (b"CONFIG", [b"GET", inj]),
                     (b"CONFIG", [b"BAD" + inj]), (b"SELECT", [b"1" + inj]), (b"AUTH", [inj, inj]), (b"ZADD", [b"k", b"1" + inj, b"m"])]:
             cases.append(dict(vals=[G.request_bytes(*req)], default="ms(4f4b)", desc="%r %r" % req))
+    # length sweep: line-type replies (status / error / integer built by the handler, handler error text, framework error
+    # quoting the command name) whose text carries CR LF at a varying position, for every length in the range
+    top = 1100
+    stride = 1 if tier != "quick" else 1
+    for ln in range(0, top + 1, stride):
+        body = bytearray(b"a" * ln)
+        if ln >= 2:
+            pos = (ln * 7 // 11) % (ln - 1)
+            body[pos:pos + 2] = b"\r\n"
+        if ln >= 8:
+            body[1:6] = b"\r\n+OK"[:5]
+        for kind in ("s", "e", "i", "E", "N"):
+            if kind in "sei":
+                cases.append(dict(vals=[G.request_bytes("GET", [b"k"])], default="m%s(%s)" % (kind, L.hx(bytes(body))), desc="GET with handler %s-reply of %d bytes carrying CR/LF" % (kind, ln)))
+            elif kind == "E":
+                cases.append(dict(vals=[G.request_bytes("GET", [b"k"])], default="e" + L.hx(bytes(body)), desc="GET with handler error text of %d bytes carrying CR/LF" % ln))
+            else:
+                cases.append(dict(vals=[G.request_bytes(bytes(body) if ln else b"x", [])], default="ms(4f4b)", desc="unknown command name of %d bytes carrying CR/LF" % ln))
     for _ in range(n):
         vals = [c04_value(rng) for _ in range(rng.randint(1, 5))]
         cases.append(dict(vals=vals, default=rng.choice(HRES_POOL[:-1]), desc=None))
@@ -611,6 +640,14 @@ def run_c20(tier, seed):
     broken = prep(chk, "C20")
     rng = random.Random(seed)
     cases = outcome_cases(rng, 2500 if tier == "quick" else 30000, tier)
+    # end of stream at EVERY byte offset (request boundaries, inside counts, between CR and LF, inside payloads) of small pipelines
+    for pi, reqs in enumerate([[("PING", [])], [("GET", [b"k"]), ("NOSUCH", [b"a"])], [("SET", [b"k", b"v\r\n"]), ("STRLEN", [b"k"]), ("QUIT", [])],
+                               [("HLEN", [b"h"]), ("GET", [])], [("SUBSTR", [b"k", b"0", b"1"])]]):
+        data = b"".join(G.request_bytes(nm, a) for nm, a in reqs)
+        for k in range(len(data) + 1):
+            for endop in ("e", "r"):
+                cases.append(dict(line=L.mkcase(([(0, "f" + L.hx(data[:k]))] if k else []) + [(0, endop)], default="mb(76)"), endk="cut-every-offset",
+                                  desc="%s cut at byte %d of %d (%s)" % (" ; ".join(req_desc(n_, a) for n_, a in reqs), k, len(data), "eof" if endop == "e" else "reset")))
     good = run_cases(chk, cases)
     validated, distinct, ends = 0, set(), {}
     for c in good:
